@@ -612,4 +612,33 @@ theorem preFilter_sublist (keys : List Str) (lines : List (Str × List Str)) :
 example : preFilter ["ab".toList, "z".toList] [("xaby".toList, []), ("q".toList, []), ("z".toList, [])] =
     [("xaby".toList, []), ("z".toList, [])] := by decide
 
+/-! ### the system's name is taken VERBATIM (`Hostname.__init__`: `_fqdn`, `_hostname = split('.')[0]`, `_domain = rest`) -/
+
+/-- what `Hostname.__init__` stores after the short name: nothing, or `.` and the domain -/
+def domainSuffix (fqdn : Str) : Str :=
+  match domainOf fqdn with
+  | none => []
+  | some d => '.' :: d
+
+/-- short name and domain are the configured spelling cut at its first dot — no letter-case folding, no stripping of
+white space or of a trailing dot: put together again they ARE the configured name -/
+theorem host_init_verbatim (fqdn : Str) : shortName fqdn ++ domainSuffix fqdn = fqdn := by
+  induction fqdn with
+  | nil => simp [shortName, domainSuffix, domainOf]
+  | cons a as ih =>
+    by_cases ha : a = '.'
+    · subst ha
+      simp [shortName, domainSuffix, domainOf, List.takeWhile, List.dropWhile]
+    · have hb : (a != '.') = true := by simp [ha]
+      simp only [shortName, domainSuffix, domainOf, List.takeWhile_cons, List.dropWhile_cons, hb, if_true] at ih ⊢
+      simp only [List.cons_append, ih]
+
+/-- upper-case letters, white space and a trailing dot stay where the caller put them; matching is by that spelling:
+the configured name is cleared, the same name in lower case is not the system's configured name and is left alone -/
+example : shortName "WebSrv01.Corp.Example.org".toList = "WebSrv01".toList ∧
+    domainOf "WebSrv01.Corp.Example.org".toList = some "Corp.Example.org".toList ∧
+    shortName " web1.abc.com. ".toList = " web1".toList ∧ domainOf " web1.abc.com. ".toList = some "abc.com. ".toList ∧
+    hostKeys "WebSrv01.Corp.Example.org".toList "db7.Corp.Example.org db7.corp.example.org WebSrv01".toList =
+      ["db7.Corp.Example.org".toList] := by decide
+
 end IV.CleanLine
